@@ -481,6 +481,11 @@ class Interp:
                 return self.cua_discr[var]
             if adt.endswith("ControlFlow"):
                 return {"Continue": 0, "Break": 1}[var]
+            a_ = self.facts.adts.get(adt)
+            if a_ is not None:
+                for nm_, d_ in a_.get("discriminants", []):
+                    if nm_ == var:
+                        return int(d_)
             raise Unsupported("discriminant of %s" % adt)
         raise Unsupported("discriminant of %s" % k)
 
@@ -757,6 +762,11 @@ class Interp:
                     return ENUM(adt, rv["variant"], ops)
                 if adt.endswith("TryFromBigIntError"):
                     return STRUCT(adt, dict(zip(rv["fields"], ops)))
+                # any other enum of the crate (a private classification enum such as a quotient-sign or exponent class): keep the
+                # variant; its discriminant is read from the type's definition
+                a_ = self.facts.adts.get(adt)
+                if a_ is not None and a_.get("kind") == "Enum":
+                    return ENUM(adt, rv["variant"], ops)
                 return STRUCT(adt, dict(zip(rv["fields"], ops)))
             raise Unsupported("aggregate %s" % ak)
         if k == "binop":
